@@ -742,17 +742,12 @@ class SorteDeque(collections.deque):
         self.rotate(i)
 
     def resort(self, item):  # pragma: no cover
+        # bisecting for an item that is itself in the deque compares it with itself, which hides
+        # a needed move to the right: always take it out and insert it into its sorted position
         if item in self:
-            # if item is already in self, see if it is still in sorted order.
-            # if not, re-sort it by removing it and then inserting it into its sorted order
-            i = bisect.bisect_left(self, item)
-            if i == len(self) or self[i] is not item:
-                self.remove(item)
-                self.insort(item)
+            self.remove(item)
 
-        else:
-            # if item is not in self, just insert it in sorted order
-            self.insort(item)
+        self.insort(item)
 
     def check(self):  # pragma: no cover
         """re-sort any items in self that are not sorted"""
